@@ -6,13 +6,15 @@ HEAD = """module m
   implicit none
   integer, parameter :: wp = 8
 contains
-  subroutine s(x, y, z, x2, y2, z2, xl, yl, n, m2, i1, i2, k, t, q, r, flag)
-    integer, intent(in) :: n, m2, i1, i2
+  subroutine s(x, y, z, x2, y2, z2, xl, yl, w2, v2, n, m2, nm1, ub1, ub2, i1, i2, k, t, q, r, flag)
+    integer, intent(in) :: n, m2, nm1, ub1, ub2, i1, i2
     real(kind=wp), dimension(n), intent(inout) :: x, y, z
     real(kind=wp), dimension(n,m2), intent(inout) :: x2, y2
     real(kind=wp), dimension(n,n), intent(inout) :: z2
-    real(kind=wp), dimension(({lb}):n+({lb})-1), intent(inout) :: xl
-    real(kind=wp), dimension(({lb2}):n+({lb2})-1), intent(inout) :: yl
+    real(kind=wp), dimension({lb}:ub1), intent(inout) :: xl
+    real(kind=wp), dimension({lb2}:ub2), intent(inout) :: yl
+    real(kind=wp), dimension(3,0:nm1), intent(inout) :: w2
+    real(kind=wp), dimension(0:nm1,2:4), intent(inout) :: v2
     integer, intent(inout) :: k
     real(kind=wp), intent(inout) :: t, q, r
     logical, intent(inout) :: flag
@@ -61,6 +63,12 @@ def gen(tier, seed):
     add("sec2", {"v": 7}, "z2(1:n,1) = z2(1,1:n)")
     add("sec2", {"v": 8}, "x2(i1,:) = y2(i1,:) * t")
     add("sec2", {"v": 9}, "z2(:,:) = transpose(z2(:,:))")
+    # --- ranges in different dimension positions of arrays whose declared lower bounds differ
+    for v, b in enumerate(["x(:) = w2(2,:)", "w2(1,:) = x(:)", "w2(1,:) = w2(2,:) + x", "x(:) = v2(:,3)",
+                           "v2(:,2) = w2(3,:)", "w2(:,0) = v2(0,:)", "x = w2(2,:) * 2.0",
+                           "x(1:n) = w2(i1,0:n-1)", "x(:) = w2(2,:nm1)", "x(2:) = w2(2,:nm1-1)", "w2(2,1:) = x(2:)", "r = sum(w2(2,:))", "x(:) = x(:) + v2(:,2) * w2(3,:)",
+                           "v2(:,3) = v2(:,2)", "r = maxval(v2(:,3)) - minval(w2(1,:))"]):
+        add("mixdim", {"v": v}, b)
     # --- non-unit lower bounds, whole arrays, bare references
     for lb, lb2 in [(1, 1), (0, 1), (2, 0), (-1, 3)]:
         add("lbound", {"v": 1}, "xl = yl + 1.0", lb, lb2)
